@@ -32,5 +32,10 @@ for cfg in ('default', 'nodefault', 'rand'):
             t = b['term']
             if t['k'] == 'call' and t['func'].get('def') in ('std::result::Result::<T, E>::and_then', 'std::option::Option::<T>::and_then'):
                 atp.add(f['path'].split('::{closure')[0])
-json.dump({'fns': sorted(out.values(), key=lambda x: x['path']), 'adts': sorted(adts), 'direct_closure_parents': sorted(dcp), 'and_then_parents': sorted(atp)}, open(os.path.join(os.path.dirname(os.path.dirname(os.path.abspath(__file__))), 'baseline_fns.json'), 'w'), indent=0)
+from bpsa import inline
+sigs = set()
+for cfg in ('default', 'nodefault', 'rand'):
+    path, _ = build.facts_path(cfg)
+    inline.lower_effect_collect(json.load(open(path)), None, only_sigs=sigs)
+json.dump({'effect_collects': sorted(list(x) for x in sigs), 'fns': sorted(out.values(), key=lambda x: x['path']), 'adts': sorted(adts), 'direct_closure_parents': sorted(dcp), 'and_then_parents': sorted(atp)}, open(os.path.join(os.path.dirname(os.path.dirname(os.path.abspath(__file__))), 'baseline_fns.json'), 'w'), indent=0)
 print(len(out), 'functions')
